@@ -147,7 +147,28 @@ class CountIter:
 
 
 def _count(I, a, k):
-    return CountIter(*(a or [k.get("start", 0)]))
+    from .vals import SymRange
+    start = a[0] if a else k.get("start", 0)
+    return SymRange(start, None)          # unbounded counter: a range without an upper bound
+
+
+class RepeatIter:
+    """itertools.repeat(x): yields x forever"""
+
+    def __init__(self, value):
+        self.value = value
+
+    def pyvc_next(self, I):
+        return self.value
+
+    def canon(self, cn):
+        return ("repeat", cn.c(self.value))
+
+
+def _repeat(I, a, k):
+    if len(a) > 1:
+        raise EngineError("itertools.repeat with a count")
+    return RepeatIter(a[0])
 
 
 def _op2(sym):
@@ -238,6 +259,7 @@ STD = {
     "itertools.chain": _chain,
     "itertools.chain.from_iterable": _chain_from_iterable,
     "itertools.count": _count,
+    "itertools.repeat": _repeat,
     "operator.lt": _op2("<"), "operator.le": _op2("<="), "operator.gt": _op2(">"), "operator.ge": _op2(">="),
     "operator.eq": _op2("=="), "operator.ne": _op2("!="),
     "time.time": _time,
